@@ -64,38 +64,59 @@ def run(prog, rep):
                        "the reader validates tags against the same table")
     se = prog.func("tools.xmlparser.XMLWriter.save_element")
     rep.saw_function(se)
-    fmt_vars = set()
-    key_vars = set()
-    for n in walk_no_nested(se.node):
-        if isinstance(n, ast.Assign) and isinstance(n.value, ast.Call) and unparse(n.value.func).endswith(".format"):
-            for t in n.targets:
-                if isinstance(t, ast.Name):
-                    fmt_vars.add(t.id)
-    for n in walk_no_nested(se.node):
-        if isinstance(n, ast.For) and isinstance(n.target, ast.Name):
-            it = unparse(n.iter)
-            if any(it == "%s.arguments_keys" % v for v in fmt_vars):
-                key_vars.add(n.target.id)
-    e_calls = [c for c in calls_in(se.node) if call_name(c) in ("E", "ET.Element", "ET.SubElement")]
+    from ..dataflow import private_closure
+    se_funcs = private_closure(se)
+    fmt_of = dict((h.qualname, set()) for h in se_funcs)
+    for h in se_funcs:
+        for n in walk_no_nested(h.node):
+            if isinstance(n, ast.Assign) and isinstance(n.value, ast.Call) and unparse(n.value.func).endswith(".format"):
+                for t in n.targets:
+                    if isinstance(t, ast.Name):
+                        fmt_of[h.qualname].add(t.id)
+    # a helper that is handed the format object: its parameter is a format variable too
+    for _ in range(2):
+        for h in se_funcs:
+            for c in calls_in(h.node):
+                tgt = [x for x in se_funcs if x is not h and (unparse(c.func).split(".")[-1] == x.name)]
+                for x in tgt:
+                    off = 1 if (x.has_self and not (isinstance(c.func, ast.Attribute) and x.cls is not None and unparse(c.func.value) == x.cls.name)) else 0
+                    if x.kind == "static" or not x.has_self:
+                        off = 0
+                    for k0, a in enumerate(c.args):
+                        if isinstance(a, ast.Name) and a.id in fmt_of[h.qualname] and k0 + off < len(x.params):
+                            fmt_of[x.qualname].add(x.params[k0 + off])
+    e_calls = []
+    for h in se_funcs:
+        fmt_vars = fmt_of[h.qualname]
+        key_vars = set()
+        for n in walk_no_nested(h.node):
+            if isinstance(n, ast.For) and isinstance(n.target, ast.Name):
+                it = unparse(n.iter)
+                if any(it == "%s.arguments_keys" % v for v in fmt_vars):
+                    key_vars.add(n.target.id)
+        for c in calls_in(h.node):
+            if call_name(c) in ("E", "ET.Element", "ET.SubElement"):
+                e_calls.append((h, c, fmt_vars, key_vars))
     rep.floor("PROV-6", len(e_calls), 2, "element constructions in save_element")
-    for c in e_calls:
+    for h, c, fmt_vars, key_vars in e_calls:
         tag = c.args[0] if c.args else None
         txt = unparse(tag) if tag is not None else "<none>"
         good = (isinstance(tag, ast.Name) and tag.id in key_vars) or \
                any(txt == "%s.name" % v for v in fmt_vars)
         rep.check(good, "PROV-6", "save_element: E(%s, ...)" % txt, "tag taken from the format table",
                   "element tag %s is not taken from fmt.name / the arguments_keys loop variable" % txt,
-                  where(se, c), witness="writer emits an element the reader's table does not know")
+                  where(h, c), witness="writer emits an element the reader's table does not know")
     # attribute names set on elements: only 'version'
-    for n in walk_no_nested(se.node):
-        if isinstance(n, ast.Assign):
-            for t in n.targets:
-                if isinstance(t, ast.Subscript) and unparse(t.value).endswith(".attrib"):
-                    k = t.slice.value if isinstance(t.slice, ast.Constant) else None
-                    rep.check(k == "version", "PROV-6", "save_element: XML attribute %r" % (k,),
-                              "only the version attribute is written",
-                              "writer sets XML attribute %s; the reader rejects every attribute but version" % unparse(t.slice),
-                              where(se, n))
+    for h in se_funcs:
+        for n in walk_no_nested(h.node):
+            if isinstance(n, ast.Assign):
+                for t in n.targets:
+                    if isinstance(t, ast.Subscript) and unparse(t.value).endswith(".attrib"):
+                        k = t.slice.value if isinstance(t.slice, ast.Constant) else None
+                        rep.check(k == "version", "PROV-6", "save_element: XML attribute %r" % (k,),
+                                  "only the version attribute is written",
+                                  "writer sets XML attribute %s; the reader rejects every attribute but version" % unparse(t.slice),
+                                  where(h, n))
     # reader side
     iva = prog.func("tools.xmlparser.XMLReader.is_valid_argument")
     pt = prog.func("tools.xmlparser.XMLReader.parse_tag")
@@ -147,10 +168,15 @@ def run(prog, rep):
     hv = prog.func("tools.xmlparser.XMLReader._handle_version")
     rep.saw_function(hv)
     cmp_ok = False
-    for n in ast.walk(hv.node):
-        if isinstance(n, ast.Compare) and "version" in unparse(n.left) and len(n.comparators) == 1:
-            if ct.resolves_to_format_version(prog, xml, n.comparators[0]) and isinstance(n.ops[0], (ast.NotEq, ast.Eq)):
-                cmp_ok = True
+    hvx = Expander(hv, build_cfg(hv), only_locations=True)
+    for hn in hvx.g.nodes:
+        for r0 in hn.expr_roots():
+            for n in ast.walk(r0):
+                if isinstance(n, ast.Compare) and len(n.comparators) == 1 and isinstance(n.ops[0], (ast.NotEq, ast.Eq)):
+                    for a0, b0 in ((n.left, n.comparators[0]), (n.comparators[0], n.left)):
+                        # the attribute may have been read into a local first
+                        if "version" in hvx.text(a0, hn) and ct.resolves_to_format_version(prog, xml, b0):
+                            cmp_ok = True
     rep.check(cmp_ok, "VER-1", "reader compares root version with FORMAT_VERSION", "ok",
               "_handle_version no longer compares the version attribute with info.FORMAT_VERSION", hv.where)
     raises = [unparse(n.exc.func) for n in ast.walk(hv.node) if isinstance(n, ast.Raise) and isinstance(n.exc, ast.Call)]
@@ -162,31 +188,35 @@ def run(prog, rep):
     rep.rule("TRUTH-1", "in XMLWriter.save_element the only guards that skip an attribute value are "
                         "`hasattr` and `val is None`; a truthiness test would drop set-but-falsy values "
                         "(uncertainty 0, empty value list)")
-    g = build_cfg(se)
-    val_vars = set()
-    for n in walk_no_nested(se.node):
-        if isinstance(n, ast.Assign) and isinstance(n.value, ast.Call) and call_name(n.value) == "getattr":
-            for t in n.targets:
-                if isinstance(t, ast.Name):
-                    val_vars.add(t.id)
-    rep.floor("TRUTH-1", len(val_vars), 1, "getattr value variables in save_element")
+    n_vals = 0
     n_guards = 0
-    for node in g.nodes:
-        if node.kind != "branch":
-            continue
-        for txt, pol, e in truthiness_tests(node.ast.test):
-            if isinstance(e, ast.Name) and e.id in val_vars:
-                # truthiness of the value decides: allowed only when the falsy side does
-                # not skip emission, i.e. the test merely selects *how* to emit.
-                skips = _skips_emission(g, node, pol)
-                n_guards += 1
-                rep.check(not skips, "TRUTH-1", "save_element: truthiness test on %s" % txt,
-                          "selects the encoding only; the value is still written",
-                          "attribute value is dropped when falsy (`%s`)" % unparse(node.ast.test), where(se, node.ast),
-                          witness="uncertainty = 0 / values = [] missing after save and load")
-    none_guard = [n for n in g.nodes if n.kind == "branch" and isinstance(n.ast.test, ast.Compare)
-                  and isinstance(n.ast.test.ops[0], ast.Is) and isinstance(n.ast.test.left, ast.Name)
-                  and n.ast.test.left.id in val_vars]
+    none_guard = []
+    for h in se_funcs:
+        g = build_cfg(h)
+        val_vars = set()
+        for n in walk_no_nested(h.node):
+            if isinstance(n, ast.Assign) and isinstance(n.value, ast.Call) and call_name(n.value) == "getattr":
+                for t in n.targets:
+                    if isinstance(t, ast.Name):
+                        val_vars.add(t.id)
+        n_vals += len(val_vars)
+        for node in g.nodes:
+            if node.kind != "branch":
+                continue
+            for txt, pol, e in truthiness_tests(node.ast.test):
+                if isinstance(e, ast.Name) and e.id in val_vars:
+                    # truthiness of the value decides: allowed only when the falsy side does
+                    # not skip emission, i.e. the test merely selects *how* to emit.
+                    skips = _skips_emission(g, node, pol)
+                    n_guards += 1
+                    rep.check(not skips, "TRUTH-1", "save_element: truthiness test on %s" % txt,
+                              "selects the encoding only; the value is still written",
+                              "attribute value is dropped when falsy (`%s`)" % unparse(node.ast.test), where(h, node.ast),
+                              witness="uncertainty = 0 / values = [] missing after save and load")
+        none_guard += [n for n in g.nodes if n.kind == "branch" and isinstance(n.ast.test, ast.Compare)
+                       and isinstance(n.ast.test.ops[0], ast.Is) and isinstance(n.ast.test.left, ast.Name)
+                       and n.ast.test.left.id in val_vars]
+    rep.floor("TRUTH-1", n_vals, 1, "getattr value variables in save_element")
     rep.check(bool(none_guard), "TRUTH-1", "save_element skips unset values by `is None`", "ok",
               "no `val is None` guard found", se.where)
 
@@ -257,7 +287,7 @@ def run(prog, rep):
 
     # ---------------------------------------------------------------- LOOP-1
     loop_carried_state(prog, rep, [pt], "LOOP-1")
-    csv_options_rule(prog, rep, "CSV-1")
+    csv_options_rule(prog, rep, "CSV-2")
 
     # ----------------------------------------------------------------- ORD-3
     cardinality_roundtrip(prog, rep, which=("xml",))
@@ -304,7 +334,10 @@ def run(prog, rep):
                 return "LAST"
             return None
         for n in strips:
-            good = known(fg, n, clc, lambda a0: a0["FIRST"], ["FIRST"], with_node=True) and known(fg, n, clc, lambda a0: a0["LAST"], ["LAST"], with_node=True)
+            fxx = Expander(fc, fg)
+            xt = lambda t0, br0: fxx.expand(t0, br0)      # a test kept in a local (`is_list = a and b; if not is_list`) is the test itself
+            good = known(fg, n, clc, lambda a0: a0["FIRST"], ["FIRST"], with_node=True, expand_test=xt) and \
+                known(fg, n, clc, lambda a0: a0["LAST"], ["LAST"], with_node=True, expand_test=xt)
             rep.check(good, "CSV-1", "from_csv strips brackets only from a bracketed list", "first == %r and last == %r" % (op, cl),
                       "from_csv strips the first and last character on a path that does not know the text starts with %r and ends with %r" % (op, cl),
                       where(fc, n.ast), witness="a single text value like '[sic] as noted' loses characters / is split at commas after save and load")
@@ -369,7 +402,7 @@ def _root_tag_expr(prog, mod, func, expr, exact):
     return ct.resolves_to_format_version(prog, mod, v1)
 
 
-def csv_options_rule(prog, rep, rule="CSV-1"):
+def csv_options_rule(prog, rep, rule="CSV-2"):
     """writer and reader of the value lists use one csv dialect and nothing else"""
     from ..model import canonical_name
     rep.rule(rule, "every csv.writer / csv.reader in odml/tools/xmlparser.py is built with the same `dialect` and with no other formatting "
